@@ -23,6 +23,68 @@ pub fn case_json(lon: f64, lat: f64, res: i32, class: &str) -> Value {
     json!({ "lon": fj(lon), "lat": fj(lat), "res": res, "class": class })
 }
 
+thread_local! {
+    /// hook H1 reading of the lookup most recently judged on this thread: (branch, probe index, estimates tried)
+    static LAST_BRANCH: std::cell::Cell<(u8, u8, u8)> = const { std::cell::Cell::new((255, 0, 0)) };
+}
+
+/// how hard the lookup had to search: the index of the probe that produced the answer, 26 when no probe did (fallback)
+fn search_effort() -> u8 {
+    let b = LAST_BRANCH.with(|b| b.get());
+    match b.0 {
+        3 => 26,
+        2 => b.1.min(25),
+        _ => 0,
+    }
+}
+
+/// Hook-guided search for the most fragile lookups: the lookup walks a fixed spiral of probe points around the query until one of
+/// them lands in the containing cell; how far it had to walk (hook H1) says how close the call was to finding nothing and
+/// falling back to "nearest cell". A small population of points is mutated (offsets of 1e-4 .. 0.3 cell sizes, and the same
+/// place at neighbouring resolutions), keeping those that made the lookup walk furthest. Every lookup made on the way is judged
+/// like any other; on a tree whose spiral is coarser or shorter the points found here are the first to get a wrong answer.
+fn fragile_search(run: &mut Run, rng: &mut Rng, fr: &Frame, steps: u64) {
+    let mut elite: Vec<(u8, f64, f64, i32)> = Vec::new();
+    let cap = 48;
+    for step in 0..steps {
+        let (lon, lat, res) = if elite.len() < cap || step % 4 == 0 {
+            // fresh blood: a point hugging a corner or an edge of some cell, or any hostile point
+            match celledge_point(rng, fr, run) {
+                Some((lo, la, r)) if r >= 2 => (lo, la, r),
+                _ => {
+                    let class = *rng.pick(&gen::POINT_CLASSES);
+                    let (lo, la) = gen::point(rng, fr, class);
+                    (lo, la, gen::random_res(rng).max(2))
+                }
+            }
+        } else {
+            let (_, lo, la, r) = elite[rng.usize(elite.len())];
+            let v = unit_from_lonlat(lo, la);
+            let eps = cell_size(r) * 10f64.powf(rng.range(-4.0, -0.5));
+            let (nlo, nla) = lonlat_from_unit(gen::nudge(rng, v, eps));
+            let nr = if rng.chance(0.15) { (r + rng.below(3) as i32 - 1).clamp(2, MAX_RES) } else { r };
+            (nlo, nla, nr)
+        };
+        check_lookup(run, lon, lat, res, "fragile_search", false);
+        let effort = search_effort();
+        run.count(&format!("fragile_search.probe_index.{effort:02}"));
+        // a fallback on a point that sits on an edge or a vertex to within rounding is legitimate and says nothing about the
+        // spiral: it is judged like every lookup but not bred from
+        let effort = if effort == 26 { 0 } else { effort };
+        // recorded as a margin: the spiral has 25 probes; how many the hardest lookup needed shows how much reach is to spare
+        run.margin("probes_needed_by_the_hardest_lookup_found", effort as f64, 25.0, || case_json(lon, lat, res, "fragile_search"));
+        if elite.len() < cap {
+            elite.push((effort, lon, lat, res));
+        } else if let Some((k, worst)) = elite.iter().enumerate().min_by_key(|(_, e)| e.0).map(|(k, e)| (k, e.0)) {
+            if effort >= worst {
+                elite[k] = (effort, lon, lat, res);
+            }
+        }
+    }
+    let best = elite.iter().map(|e| e.0).max().unwrap_or(0);
+    run.count(&format!("fragile_search.best_probe_index_of_a_worker.{best:02}"));
+}
+
 /// the oracle for one lookup. Returns the id when the call succeeded.
 pub fn check_lookup(run: &mut Run, lon: f64, lat: f64, res: i32, class: &str, with_o2: bool) -> Option<u64> {
     run.evaluations += 1;
@@ -35,6 +97,7 @@ pub fn check_lookup(run: &mut Run, lon: f64, lat: f64, res: i32, class: &str, wi
         }
     };
     let branch = last_lookup_branch();
+    LAST_BRANCH.with(|b| b.set(branch));
     let cell = match decode(id) {
         Some(c) => c,
         None => {
@@ -171,6 +234,7 @@ fn run(ctx: &Ctx) -> Run {
         if w == 0 {
             deterministic_corpus(run);
         }
+        fragile_search(run, &mut rng, &fr, per / 6);
         let mut recent: Vec<(f64, f64, i32)> = Vec::new();
         for i in 0..per {
             let roll = rng.f();
